@@ -54,6 +54,10 @@ TEXT = {
          "identities between different closed forms are equivalent to C01 for both sides", "Lean 4 theorems over R + whole-vs-parts differential oracle on the real code"),
  "C14": ("proof (partial): Sphere interface conditions (normal B, tangential H continuous) and B - mu0 H = J inside; flux/circulation for general surfaces and loops by quadrature oracle",
          "needs Gauss/Stokes for general surfaces (not in Mathlib) and C01 per class", "Lean 4 theorems over R + flux/circulation quadrature oracle on the real code"),
+ "C17": ("proof (partial): the generic vector validator accepts exactly None-or-k-numbers (positive where documented) for every k; the per-attribute configuration table regenerated from the setters "
+         "is the documented one; rejected assignments keep the stored value; all other attributes by the grammar oracle on real setters and constructors",
+         "np.array(dtype=float) modelled as rectangular nesting of numeric leaves; scalar/orientation/segment/pixel validators oracle-only",
+         "Lean 4 theorems by structural induction over a value grammar + decide over the generated table + grammar x attribute differential oracle"),
 }
 props = [json.loads(l) for l in open("properties.jsonl")]
 checks = []
